@@ -106,7 +106,8 @@ COMPARISONS = ['Equal', 'NotEqual', 'LessOrEqual', 'GreaterOrEqual', 'Less', 'Gr
 BINOPS = ['Plus', 'Minus', 'Times', 'Divide', 'Power', 'bioMin', 'bioMax', 'And', 'Or'] + COMPARISONS
 NARYOPS = ['bioMultSum', 'BelongsTo', 'Elem', 'ConditionalSum', 'bioLinearUtility', '_bioLogLogit', '_bioLogLogitFullChoiceSet']
 
-BETAS = [('b2', True, ['1/2', '3']), ('B10', True, ['2', '-1']), ('a_fix', False, ['3/2', '3/2'])]
+# two fixed parameters with different values whose order of appearance (a_fix, Z_fix) is not their sorted order
+BETAS = [('b2', True, ['1/2', '3']), ('B10', True, ['2', '-1']), ('a_fix', False, ['3/2', '3/2']), ('Z_fix', False, ['-2', '-2'])]
 VARS = [('x', ['2', '1/2', '-1']), ('y', ['1', '3', '3']), ('av', ['1', '0', '1'])]
 
 
@@ -121,7 +122,7 @@ def pool_small(**kw) -> Pool:
 def pool_full(**kw) -> Pool:
     return Pool(
         betas=BETAS, vars=VARS,
-        leaves=[('num', '2'), ('num', '1/2'), ('beta', 1), ('beta', 2), ('beta', 3), ('var', 1), ('var', 2), ('var', 3)],
+        leaves=[('num', '2'), ('num', '1/2'), ('beta', 1), ('beta', 2), ('beta', 3), ('beta', 4), ('var', 1), ('var', 2), ('var', 3)],
         unops=UNOPS, binops=BINOPS, naryops=NARYOPS + ['bioMultSum3'], **kw,
     )
 
@@ -129,7 +130,7 @@ def pool_full(**kw) -> Pool:
 def pool_mid(**kw) -> Pool:
     return Pool(
         betas=BETAS, vars=VARS,
-        leaves=[('num', '2'), ('beta', 1), ('beta', 2), ('beta', 3), ('var', 1), ('var', 2), ('var', 3)],
+        leaves=[('num', '2'), ('beta', 1), ('beta', 2), ('beta', 3), ('beta', 4), ('var', 1), ('var', 2), ('var', 3)],
         unops=UNOPS, binops=BINOPS, naryops=NARYOPS, **kw,
     )
 
